@@ -341,10 +341,15 @@ func (ex *Exec) invoke(fr *Frame, ins ssa.Instruction, cc *ssa.CallCommon, recv 
 		ex.havocReachable(a)
 	}
 	rt := resultType(cc.Signature())
-	if rt == nil {
-		return nil
+	var res Val
+	if rt != nil {
+		res = ex.freshVal(rt, "ret|"+cc.Method.Name())
 	}
-	return ex.freshVal(rt, "ret|"+cc.Method.Name())
+	if named, ok := it.(*types.Named); ok && named.Obj().Pkg() != nil {
+		// trusted local specification of the opaque interface method, in the caller's terms
+		ex.callSiteAssumptions(fr, ins, "iface "+named.Obj().Name()+"."+cc.Method.Name(), append([]Val{recv}, args...), res, ex.st.snapshot())
+	}
+	return res
 }
 
 // paramNames lists receiver + parameter names of a function in call order.
